@@ -6,17 +6,19 @@ namespace St4sd.C01Loop
 open St4sd.CtrlLoop
 
 theorem ready_spec {L : Loop} {s : LS} (h : ready L s = true) :
-    (∀ k, k ≤ s.cur → ∀ n ∈ L.refs, n < L.n → s.ph k n = 3) ∧ s.ph s.cur L.cond = 3 := by
+    (∀ k, k ≤ s.cur → (∀ n ∈ L.refs, n < L.n → s.ph k n = 3) ∧ s.ph k L.cond = 3) ∧ s.ph s.cur L.cond = 3 := by
   simp only [ready, Bool.and_eq_true, List.all_eq_true, List.mem_range, decide_eq_true_eq] at h
-  exact ⟨fun k hk n hn hl => h.1 k (by omega) n hn hl, h.2⟩
+  exact ⟨fun k hk => h k (by omega), (h s.cur (by omega)).2⟩
 
 structure Inv (L : Loop) (s : LS) : Prop where
   /-- iterations that were not instantiated have no history -/
   fresh : ∀ k n, s.cur < k → s.ph k n = 0
   /-- after the launch of the consumer: the loop is where it was at the launch, the producer of its condition is in
-  `comp_done`, and the launch saw every instance of every referenced looped component in `comp_done` -/
+  `comp_done`, and the launch saw every instance of every referenced looped component and of the producer of the
+  condition in `comp_done` -/
   launch : ∀ c lp, s.launched = some (c, lp) →
-    c = s.cur ∧ s.ph s.cur L.cond = 3 ∧ (∀ k, k ≤ c → ∀ n ∈ L.refs, n < L.n → lp k n = 3)
+    c = s.cur ∧ s.ph s.cur L.cond = 3 ∧
+      (∀ k, k ≤ c → (∀ n ∈ L.refs, n < L.n → lp k n = 3) ∧ lp k L.cond = 3)
 
 theorem inv_init (L : Loop) (script : List Bool) : Inv L (init script) :=
   ⟨fun _ _ _ => rfl, fun _ _ h => by simp [init] at h⟩
